@@ -321,6 +321,7 @@ def _run_rest(ctx, col, pkg, res, rel, fwd, where, rd, pm):
            f"the result `{u(ret.value)}` is not WC applied to the heads flattened over the last two axes", rel, ret.lineno)
     _masked_values_excluded_by_selection(ctx)
     _legal_dims_table(ctx)
+    _check_input_table(ctx)
     plumbing(ctx, "S3")
     return dict(
         explanation=(
@@ -404,7 +405,7 @@ def _forward_table(ctx: Ctx, fwd, rel: str) -> bool:
                 ax = dim if dim >= 0 else dim + R
                 if shape[ax] != 3:
                     continue
-                for use_mask in (False, True):
+                for use_mask in (False, True, "broadcast"):
                     E = np.empty(shape, dtype=object)
                     V = np.empty(shape + (2,), dtype=object)
                     M = np.ones(shape, dtype=bool)
@@ -420,8 +421,18 @@ def _forward_table(ctx: Ctx, fwd, rel: str) -> bool:
                                 V[idx + (0,)] = math.inf
                                 V[idx + (1,)] = math.inf
                     holder = {}
+                    E_given = E
+                    if use_mask == "broadcast":
+                        # one shared query / key (singleton batch axes) attended under per-batch masks and values: the scores have extent 1
+                        # where the mask has the batch; the result is that of the explicitly expanded scores
+                        sl_ = tuple(slice(None) if k_ == ax else slice(0, 1) for k_ in range(len(shape)))
+                        E_given = E[sl_].copy()
+                        E = np.broadcast_to(E_given, shape).copy()
+                        for idx in np.ndindex(shape):
+                            if not M[idx]:
+                                E[idx] = Fr(50)  # (what the expanded scores would hold there does not matter: the position is masked)
 
-                    def leaf(x, env, E=E):
+                    def leaf(x, env, E=E_given):
                         if isinstance(x, ast.Call):
                             nm = call_name(x)
                             if nm == "self.score":
@@ -438,8 +449,9 @@ def _forward_table(ctx: Ctx, fwd, rel: str) -> bool:
                         return None
                     it = Interp(leaf=leaf, tensors=True)
                     holder["it"] = it
-                    env = dict(zip(names, (frac_array(np.zeros(shape[:ax] + shape[ax + 1:] + (2,), dtype=int).tolist()),
-                                           frac_array(np.zeros(shape + (2,), dtype=int).tolist()), V, M if use_mask else None)))
+                    qshape = shape if use_mask != "broadcast" else tuple(s_ if k_ == ax else 1 for k_, s_ in enumerate(shape))
+                    env = dict(zip(names, (frac_array(np.zeros(qshape[:ax] + qshape[ax + 1:] + (2,), dtype=int).tolist()),
+                                           frac_array(np.zeros(qshape + (2,), dtype=int).tolist()), V, M if use_mask else None)))
                     env["self.dim"] = dim
                     kind, got = it.run(fwd.node, env)
                     n_rows += 1
@@ -469,6 +481,59 @@ def _forward_table(ctx: Ctx, fwd, rel: str) -> bool:
             f"{_show(bad[4])}: the output depends on masked positions, is normalised over another axis than it is reduced over, or is not "
             f"finite") if bad else "", rel, fwd.line, sample=dict(rows=n_rows))
     return True
+
+
+def _check_input_table(ctx: Ctx):
+    """S7 by value: `check_input` of GlobalSoftAttention and of MultiHeadedAttention (a hand-written copy of the parent's checks plus the
+    value width) interpreted over exact shapes (sa/interp.py + sa/teval.py) with three DIFFERENT widths (query 5, key 3, value 8):
+    well-formed input is accepted; a query / key / (multi-headed) value whose last extent is off - in particular a value as wide as the
+    KEY - is refused. A check against the wrong attribute is invisible while the widths coincide, as they do in self-attention."""
+    import numpy as np
+    from sa.interp import Interp, Raised
+    from sa.inteval import NotEvaluable
+    from sa.teval import frac_array
+    col, pkg = ctx.col, ctx.pkg
+    n_rows = 0
+    for cls_, has_value in (("GlobalSoftAttention", False), ("MultiHeadedAttention", True)):
+        f = pkg.func(f"{MOD}::{cls_}.check_input")
+        rel = f.module.relname
+        names = [p_.name for p_ in f.params[1:]]
+        Q, K, V, T, B = 5, 3, 8, 4, 2
+
+        def leaf(x, env):
+            if isinstance(x, ast.Call) and call_name(x).split(".")[-1] == "broadcast_shapes":
+                shapes = [holder["it"].eval(a_, env) for a_ in x.args]
+                try:
+                    return tuple(int(v_) for v_ in np.broadcast_shapes(*[tuple(int(z_) for z_ in sh_) for sh_ in shapes]))
+                except ValueError:
+                    raise Raised("RuntimeError")
+            return None
+        cases = [("well-formed input", (Q, K, V), True), ("a query one too wide", (Q + 1, K, V), False), ("a key one too wide", (Q, K + 1, V), False)]
+        if has_value:
+            cases += [("a value as wide as the key", (Q, K, K), False), ("a value one too narrow", (Q, K, V - 1), False), ("a value as wide as the query", (Q, K, Q), False)]
+        else:
+            cases += [("a value of another width (no width is prescribed)", (Q, K, 6), True)]
+        bad = None
+        try:
+            for tag, (q_, k_, v_), legal in cases:
+                holder = {}
+                it = Interp(leaf=leaf, tensors=True)
+                holder["it"] = it
+                env = dict(zip(names, (frac_array(np.zeros((B, q_), dtype=int).tolist()), frac_array(np.zeros((T, B, k_), dtype=int).tolist()),
+                                       frac_array(np.zeros((T, B, v_), dtype=int).tolist()), np.ones((T, B), dtype=bool))))
+                env.update({"self.query_size": Q, "self.key_size": K, "self.value_size": V, "self.dim": 0})
+                kind, got = it.run(f.node, env)
+                n_rows += 1
+                if (kind == "return") != legal and bad is None:
+                    bad = (tag, (q_, k_, v_), kind, got)
+        except NotEvaluable as e:
+            col.undecided(f"{rel}::{cls_}.check_input: outside the interpreted fragment ({e})")
+            continue
+        col.ob("G12", "S7", f"{rel}::{cls_}.check_input::widths-table", bad is None,
+               (f"with query_size, key_size, value_size = ({Q}, {K}, {V}): {bad[0]} (last extents of query / key / value {bad[1]}) is "
+                f"{'accepted' if bad[2] == 'return' else 'refused (' + str(bad[3]) + ')'}; each tensor's last extent is checked against its OWN size attribute") if bad else "",
+               rel, f.line, sample=dict(cases=len(cases)))
+    col.count("check_input_table_rows", n_rows)
 
 
 def _legal_dims_table(ctx: Ctx):
